@@ -766,7 +766,7 @@ func c06PrimaryRestored(r *Run) {
 	h.closeConns()
 	names, data, ok := c14DonorFiles(r, t, h, compress, t.Range(0, 3), fork)
 	if !ok {
-		r.Inconclusive("donor history")
+		r.Count("c06.restored.no-donor") // (every drawn program of the other history rolled back)
 		return
 	}
 	if !h.openConns(1) {
